@@ -320,7 +320,7 @@ func runShard(p *Prop, ph *Phase, tier string, seed int64, bindir, work string, 
 		errF, _ := os.Create(filepath.Join(out, "stderr.txt"))
 		cmd.Stdout = errF
 		cmd.Stderr = errF
-		cmd.Env = append(os.Environ(), "GOTRACEBACK=all")
+		cmd.Env = append(os.Environ(), "GOTRACEBACK=all", "VERIF_DIR="+filepath.Dir(filepath.Dir(work)))
 		if ph.Variant == "race" {
 			cmd.Env = append(cmd.Env, "GORACE=halt_on_error=0 history_size=2 log_path="+filepath.Join(out, "race"))
 		}
